@@ -1,4 +1,4 @@
 #!/bin/bash
 # seedbatch.sh <parallel> <seed>...   runs each seed against the check of its own property
 par=$1; shift
-printf "%s\n" "$@" | xargs -P "$par" -I{} sh -c 'p=$(echo {} | cut -c1-3); /verif/tools/seedtest.sh {} $p'
+printf "%s\n" "$@" | xargs -P "$par" -I{} sh -c 'p=$(echo {} | cut -c1-3); VERIF_SNAP=${VERIF_SNAP:-/verif} /verif/tools/seedtest.sh {} $p'
